@@ -76,6 +76,14 @@ def run(chk):
                 break
         # (ii') the integrator's face integrals (all faces per cell, and the symmetric variant): no face orthogonal to the
         # active subspace (a cap of the unit slab has its centroid at +-1/2 along an unused axis and no right generator)
+        if 'CL' in I:
+            k = I.index('CL')
+            flags = I[k + 1:k + 3]
+            if flags != ['1', '1']:
+                chk.violation('impl-vs-impl', 'a copy (Clone) of the %s gives other faces / face integrals than the original in a %dD build: faces along unused axes or other values (flags %s, record %d, %s)'
+                              % ('VoronoiIntegrator' if flags[:1] != ['1'] else 'ConvexCell', d, ' '.join(flags), r.id, r.family), rp, key='clone')
+            else:
+                chk.extra_cov['clone_routes_same'] = chk.extra_cov.get('clone_routes_same', 0) + 1
         if I and I[0] != 'PANIC':
             fi = integrator_faces(I)
             stored = sorted((f.left, -1 if f.right is None else f.right, f.shift is not None) for f in va['faces'])
